@@ -409,7 +409,14 @@ def step (d : D) (ws : List String) : D × String :=
     | some to, some (d, _, _, _, _) =>
       match parsePl d rest with
       | none => (d, "bad forge: unparsable payload (machine form)")
-      | some pl => ({ setPend d to (.recv pl) with tainted := to :: d.tainted }, "ok")
+      | some pl =>
+        -- a RecoveryMessage without a usable entry (probeRecovery: every compact entry names a validator outside
+        -- the list and is skipped) carries nothing the guarded-command model could deliver: the receiver stays
+        -- inside that model and its later steps are checked against it as usual
+        let empty := match pl with
+          | .recMsg _ r => r.cvs.isEmpty && r.req.isNone && r.preps.isEmpty && r.commits.isEmpty
+          | _ => false
+        ({ setPend d to (.recv pl) with tainted := if empty then d.tainted else to :: d.tainted }, "ok")
     | _, _ => (d, "bad forge: unparsable payload")
   | "hint" :: i :: now :: fresh :: _ :: hs =>
     match i.toNat?, now.toNat?, fresh.toNat? with
